@@ -11,6 +11,8 @@
 #include <dirent.h>
 #include <sys/stat.h>
 #include <sys/syscall.h>
+#include <sys/wait.h>
+#include <errno.h>
 #include <unistd.h>
 
 #include <algorithm>
@@ -75,6 +77,7 @@ void generate(sim::Rng &r, uint64_t seed, const std::string &tier, sim::Plan &p)
     op.a = {(long)r.below((uint64_t)nthr), r.range(0, 7), (long)r.below(3), len, r.chance(700) ? 1 : 0, r.range(0, 2), r.chance(150) ? r.range(1, 30) : 0};
     p.ops.push_back(op);
   }
+  if (r.chance(120)) p.cfg["fork_tail"] = 1;     // drawn last: older seeds keep their plans
   sim::draw_sched(seed, p);
 }
 
@@ -254,6 +257,31 @@ void check_against(const char *sink, const char *when, const std::vector<size_t>
   }
 }
 
+// cfg fork_tail: after the simulated part (the scheduler has been left, ids and fork() are the kernel's) the process logs one
+// record, forks, and the child logs one: each record carries the id of the thread that made the call - in the child that is the
+// child's id, not a value remembered from the parent.
+void fork_tail() {
+  RecordingSink s;
+  s.setLevel(7);
+  s.enable();
+  LogPrintfFunc("m0", "fn", "/some/dir/file.cpp", 1, 3, 0, "before fork");
+  if (s.tid.size() != 1 || s.tid[0] != (long)syscall(SYS_gettid)) { sim::violation("C09/record-fields-wrong", "thread id of a record made by the main thread is not that thread's id"); s.disable(); return; }
+  fflush(nullptr);
+  pid_t pid = fork();
+  if (pid < 0) { s.disable(); return; }
+  if (pid == 0) {
+    alarm(20);
+    LogPrintfFunc("m0", "fn", "/some/dir/file.cpp", 2, 3, 0, "after fork");
+    _exit(s.tid.size() != 2 ? 4 : (s.tid[1] == (long)syscall(SYS_gettid) ? 0 : 3));
+  }
+  int st = 0;
+  while (waitpid(pid, &st, 0) < 0 && errno == EINTR) {}
+  s.disable();
+  sim::probe("fork_tail");
+  if (WIFEXITED(st) && WEXITSTATUS(st) == 3) sim::violation("C09/record-fields-wrong", "a record made in a forked child carries the parent's thread id, not the id of the calling thread");
+  else if (!WIFEXITED(st) || WEXITSTATUS(st) != 0) sim::violation("C09/record-missing", sim::fmt("a log call in a forked child did not produce exactly one record (wait status 0x%x)", st));
+}
+
 void execute(const sim::Plan &plan) {
   sim::start(plan);
   sim::name_thread("main");
@@ -376,6 +404,7 @@ void execute(const sim::Plan &plan) {
     if (sim::violation_count() == 0 && rsink.got.size() != rec_expect.size())
       sim::violation("C09/record-unexpected", sim::fmt("recording sink holds %zu records, %zu pass its filter", rsink.got.size(), rec_expect.size()));
   }
+  if (plan.get("fork_tail") && sim::violation_count() == 0) fork_tail();
   sim::probe("records", (long)W.recs.size());
 }
 
